@@ -183,6 +183,11 @@ fn send_stub_close<T: Send + Sync + Clone + 'static>(
 #[kani::unwind(3)]
 fn lock_close() {
     let open: bool = kani::any();
+    // the channel may refuse the marker (DropLatest on a full queue): close() must end up closed all the same
+    let ok: bool = kani::any();
+    unsafe {
+        STUB_RESULT_OK = ok;
+    }
     let store = mk(open);
     unsafe {
         LOCK_PROBE = Some(&store.dispatch_tx as *const _);
